@@ -377,6 +377,8 @@ def same(a, b):
         return is_none(b) if isinstance(a, VNoneT) else is_none(a)
     if isinstance(a, VObj) and isinstance(b, VObj):
         return VBool(a.oid == b.oid)
+    if isinstance(a, VFunc) or isinstance(b, VFunc):
+        return VBool(a is b)
     if isinstance(a, (VObj, VOpaque)) and isinstance(b, (VObj, VOpaque)):
         return VBool(a.t == b.t)
     if isinstance(a, VBool) and isinstance(b, VBool):
